@@ -1,7 +1,7 @@
 #!/venv/bin/python
 """Build the prompts handed to seeding sub-agents for one round: property text + scratch worktree path +
 one-line triggers of earlier seeds for the same property (so a new seed is a different mechanism).
-Nothing about the checks themselves goes into a prompt.  usage: mkseedprompts.py <round-prefix> <outdir> [a|b|c|d]   (a/b: which list of hunting grounds the agents are steered towards)"""
+Nothing about the checks themselves goes into a prompt.  usage: mkseedprompts.py <round-prefix> <outdir> [a|b|c|d|e]   (a/b: which list of hunting grounds the agents are steered towards)"""
 import glob
 import json
 import os
@@ -16,6 +16,7 @@ props = [json.loads(l) for l in open(os.path.join(HERE, "properties.jsonl")) if 
 GROUNDS = {"a": 'Choose a mechanism of a kind NOT in that list. Good hunting grounds, in order of preference:\n  - a COMBINATION of two features that are each fine alone (for example proxying together with uploads, per-location settings together with a middleware, IPv6 together with an address list, the alternative TLS backend together with a timeout, a second call on an object that was configured by the first);\n  - a less common public entry point for the same behaviour (another method or function, a sync wrapper, a CLI command, a config-file key, a default that applies only when a value is omitted) whose code differs slightly from the main one;\n  - helper modules outside the listed anchor files that the anchored code calls into (utils, config parsing, security helpers), where a small contract change is only wrong for one caller;\n  - exact numeric boundaries (equality, zero, negative, one more than a limit, values that only differ after rounding or type conversion), and values whose textual form varies (case, leading zeros, whitespace, trailing dots or slashes, bracketed IPv6);\n  - behaviour that depends on the environment (current directory, relative paths, symlinks, permissions, pre-existing files or database rows from an older run).\n',
            "c": 'Choose a mechanism of a kind NOT in that list. Good hunting grounds, in order of preference:\n  - the safeguard\'s own failure path: what happens when the check that enforces the property itself raises, times out, is handed an unexpected type, or returns early - a broad except, a default return value or a finally block that turns "could not decide" into "allowed / done / unchanged";\n  - limits and arithmetic: very large or very many inputs (long lines, thousands of entries, deep nesting), integer/float precision and rounding, off-by-one at a maximum, negative or zero counts, sizes that differ between characters and bytes;\n  - Unicode and text forms: normalisation forms (NFC/NFD), case folding of non-ASCII, lone surrogates, zero-width and right-to-left characters, invisible differences between two strings that one site treats as equal and another as different;\n  - ordering and determinism: dict / set iteration order, sorted versus insertion order, "first match" versus "longest match", stable versus unstable sorting, duplicate keys;\n  - the operating-system boundary: short reads and partial writes, EINTR / EAGAIN, file descriptors inherited or left open, umask and permissions, files replaced or removed between a check and its use;\n  - optional and rarely used parameters of public functions and constructors (keyword arguments with defaults, None versus omitted, subclass hooks) that only some callers pass.',
            "d": 'Choose a mechanism of a kind NOT in that list. Good hunting grounds, in order of preference:\n  - duplicated code paths that must stay in step: Gemini versus Titan handling, GeminiClientProtocol versus TitanClientProtocol, the standard-library versus the PyOpenSSL backend, get versus upload versus delete, object construction versus TOML loading - a step present in one copy and dropped, reordered or weakened in the other;\n  - state machines and their flags (header received, request line received, awaiting content, closing, sent, verified): a transition taken twice, skipped, or taken in the wrong phase; a flag set too early or reset too late;\n  - early exits: a return / continue / break / raise placed so that a later mandatory step (close, commit, cancel a timer, verify, release) is skipped on exactly one path;\n  - values validated in one layer and used unvalidated in another (command line, configuration file, constructor, handler), and defaults that differ between those layers;\n  - the boundary between text and bytes: encode/decode error modes (strict, replace, ignore, surrogateescape), latin-1 fallbacks, slicing a str where bytes are meant, reflected user-controlled text;\n  - comparisons: == versus is, < versus <=, startswith versus equality, case-sensitive versus case-insensitive, comparing different types (str to int, Path to str, bytes to str) that is silently always false.',
+           "e": "Choose a mechanism of a kind NOT in that list. Good hunting grounds, in order of preference:\n  - the event loop itself: cancellation, tasks that keep running after their connection is gone, callbacks that fire after close, call_later handles kept or lost, exceptions swallowed by the loop's exception handler, awaiting inside code that used to be atomic;\n  - parsing of numbers and flags: int() accepting '+5', '5_0', ' 7', Unicode digits; floats where integers are meant; booleans given as strings; a parser that is stricter or laxer than the one used at the other end;\n  - details of the Gemini / Titan protocols themselves: which statuses carry a body, what the meta means for 1x / 2x / 3x / 4x / 6x, parameters of the media type (charset, lang) and of titan:// URLs (size, mime, token: order, duplicates, case), CRLF versus LF;\n  - configuration semantics: relative paths and '~', values inherited from a parent section, unknown or misspelled keys silently ignored, a section that is present but empty, per-item overrides of global settings;\n  - security-relevant defaults: a check that is on by default being made conditional on an option, a permissive fallback when an optional dependency or file is missing, debug or test conveniences reachable in production paths;\n  - growth without bound turning into wrong behaviour: buffers, caches, lists or counters that are never trimmed and eventually overflow, wrap, slow down past a timeout or evict the wrong entry.",
            "b": 'Choose a mechanism of a kind NOT in that list. Good hunting grounds, in order of preference:\n  - two connections, requests or calls that are in flight AT THE SAME TIME and share an object (a limiter, a store, a handler, a cache, a client): state written by one is seen half-updated by the other;\n  - code whose purpose is not the behaviour itself - logging, metrics, debug output, statistics, pretty-printing, progress callbacks - placed so that a failure or side effect there changes what the peer sees;\n  - clean-up that is forgotten or done too early: timers, tasks, temporary files, file descriptors, database handles, flags; the damage shows only on a LATER event (a late read, a timer that still fires, the next request on the same object);\n  - truthiness and type coercion of legitimate values: 0, empty string, empty list, None versus missing, bool versus int, str versus bytes, Path versus str;\n  - quirks of the standard library the code leans on (urllib.parse, ipaddress, ssl, sqlite3, tomllib, pathlib, os.path) for inputs where two of its functions disagree;\n  - time: wall clock versus monotonic clock, naive versus aware datetimes, very long idle periods, events that happen at exactly the same instant.'}
 
 TEMPLATE = """You are helping evaluate a verification harness by producing a realistic, subtle regression ("seeded bug") in an open-source Python project, nauyaca (an asyncio Gemini/Titan protocol server and client with TLS, TOFU certificate pinning, middleware and a reverse proxy).
